@@ -20,7 +20,8 @@ HARNESSES = [
  _h('index_kinds', 'compute_indices/compute_strides on dim-3 shapes, extents 1..MAXE, offset symbolic; std-build kind KA in {static vector, list, tuple, raw C array} and utl-build kind KB in {fixed array, static vector, list, tuple, raw array} vs the std fixed-array result.' + ENUM,
     quick=_cfgs(3, (1, 2, 3, 4), (0, 1, 2, 3, 4), (0,))[::3], thorough=_cfgs(4, (1, 2, 3, 4), (0, 1, 2, 3, 4), (0,))),
  _h('bshape_kinds', 'broadcast_shape of a dim-3 and a dim-2 shape, extents 1..MAXE incl. incompatible ones; operand kinds KA,KB in {array, static vector, list} x build in {std, utl}.' + ENUM,
-    quick=_cfgs(3, (0, 1, 2), (0, 1, 2)), thorough=_cfgs(4, (0, 1, 2), (0, 1, 2))),
+    quick=[c for c in _cfgs(3, (0, 1, 2), (0, 1, 2)) if not (c['KA'] == 2 and c['KB'] == 2 and c['BUILD'] == 0)],   # std::vector x std::vector: 250-370 s / 12 GB, thorough tier
+    thorough=_cfgs(4, (0, 1, 2), (0, 1, 2)) + [dict(c, _timeout=1800, _mem_gb=14) for c in _cfgs(3, (2,), (2,), (0,))]),
  _h('reshape_kinds', 'shape_reshape dim-3 source, 2 signed target entries in -2..MAXE^3 incl. invalid ones; kinds KA,KB in {array, static vector, list} x build.' + ENUM,
     quick=_cfgs(3, (0, 1, 2), (0, 1, 2))[::2], thorough=_cfgs(4, (0, 1, 2), (0, 1, 2))),
  _h('reshape_ctdst', 'shape_reshape of a symbolic run-time dim-3 source (kind KA in {array, static vector, list} x build) to the compile-time CONSTANT target (2,3), and the all-constant (1,3,2)->(2,3), vs the all-run-time call.' + ENUM,
